@@ -145,6 +145,9 @@ func (p *PackageProgress) stageStreamData() error {
 		}()
 		offset, dataLen := stream.GetDataOffsetAndLen()
 		pack.Offset = offset
+		if oldLen, ok := pack.OffsetRecord[offset]; ok { // 重传的同一块数据 不能重复计算已上传的大小
+			pack.CurrentSize -= uint32(oldLen)
+		}
 		pack.OffsetRecord[offset] = dataLen
 		pack.OffsetDataRecord[offset] = p.historyData[headLen : headLen+bodyLen]
 		pack.CurrentSize += uint32(bodyLen)
